@@ -8,14 +8,20 @@
   unitary; the labels H, V, D, A, L, R denote the standard Jones vectors.
 
   In the model the simulation *is* `polDist (upol * prep) spatialInput` (definition `polDist`,
-  `simMatrix`); the theorems below establish, for every commutative (star) ring — in particular
+  `simMatrix`); sections 1–9 establish, for every commutative (star) ring — in particular
   `ℂ` — and every circuit tree / every angle / every Jones vector, that each ingredient is what
-  the statement says it is.
+  the statement says it is; section 10 ties them together (`polarised_simulation_spec`,
+  `polarised_simulation_of_input`, over `ℂ`: `polarised_simulation_mass_field`); section 11 extends
+  the session theorems to histories that edit the circuit (`add`, re-tuned parameters).  What is
+  NOT proved is listed at the end of the file.
 -/
 import PercevalModel.Lemmas.C13
 import PercevalModel.Props.C01
 import Mathlib.LinearAlgebra.Matrix.NonsingularInverse
 import PercevalModel.Lemmas.C13Complex
+import PercevalModel.Lemmas.C13More
+import PercevalModel.Lemmas.C13Session
+import PercevalModel.Props.C02
 
 open Matrix
 
@@ -526,5 +532,376 @@ example : exTree.WF ∧ exTree.AllUnitary := by
 example : (PItems.cons 1 (.plain 2 swap2) .nil : PItems GQ).requires = false ∧
     (PItems.cons 1 (.plain 2 swap2) .nil : PItems GQ).WF 3 := by
   simp [PItems.requires, PComp.requires, PItems.WF, PComp.WF, PComp.size]
+
+/-! ### 10. the top-level statement: polarised simulation = merged spatial simulation of
+`upol · prep` on the prepared input, and it is a probability distribution
+
+Side conditions, exactly: the tree is well-formed (`WF`: the ranges `Circuit.add` accepted), every
+leaf matrix is unitary (`AllUnitary`), every preparation block is unitary (`hA`; discharged by
+`modeBlock_isUnitary` for normalised Jones vectors and an exact inverse norm `ρ`, see
+`polarised_simulation_of_input`), and the spatial input has one entry per sub-mode
+(`s.length = 2m`).  Nothing is assumed about the photon number, the nesting depth or the angles. -/
+
+section TopLevel
+open PM.Fock
+
+/-- `Unitary(upol @ prep)` is unitary (any commutative star ring, in particular `ℂ`) -/
+theorem simMatrix_isUnitary [CommRing R] [StarRing R] (c : PComp R) (h : c.WF)
+    (hu : c.AllUnitary) (A : Fin c.size → Matrix (Fin 2) (Fin 2) R) (hA : ∀ k, IsUnitary (A k)) :
+    IsUnitary (simMatrix (upolOf c) (prepMatrix A)) :=
+  (castSq_isUnitary _ (unitaryOfPol_isUnitary c h hu)).mul (prepMatrix_isUnitary A hA)
+
+/-- **Top-level theorem** (executable instance `ℚ[i]`).  For a polarised circuit tree `c` of
+unitary leaves on `m = c.size` spatial modes, unitary preparation blocks `A` and a spatial input `s`
+on the `2m` sub-modes, the model's polarised simulation `polDist (upol · prep) s`
+
+* is the image under "sum the two sub-modes of every mode" of the spatial Fock distribution
+  (permanent formula, C02) of the unitary matrix `unitaryOfPol c · prepMatrix A` on `s`;
+* has total mass 1, and so has the list of probabilities reported over the enumeration of the
+  `m`-mode states with `s.sum` photons (what `probs()` returns);
+* gives every `m`-mode state `t` the sum of the spatial probabilities of the `2m`-mode states that
+  merge to `t`, and lists no key outside the `m`-mode states with `s.sum` photons. -/
+theorem polarised_simulation_spec (c : PComp GQ) (h : c.WF) (hu : c.AllUnitary)
+    (A : Fin c.size → Matrix (Fin 2) (Fin 2) GQ) (hA : ∀ k, IsUnitary (A k))
+    (s : List ℕ) (hs : s.length = c.size * 2) :
+    IsUnitary (simMatrix (upolOf c) (prepMatrix A)) ∧
+    polDist (simMatrix (upolOf c) (prepMatrix A)) s =
+      Dist.mapKeys mergeState (spatialDist (upolOf c * prepMatrix A) s) ∧
+    Dist.mass (polDist (simMatrix (upolOf c) (prepMatrix A)) s) = 1 ∧
+    ((allStates c.size s.sum).map
+      (Dist.get (polDist (simMatrix (upolOf c) (prepMatrix A)) s))).sum = 1 ∧
+    (∀ t, Dist.get (polDist (simMatrix (upolOf c) (prepMatrix A)) s) t =
+      (((allStates (c.size * 2) s.sum).filter fun u => mergeState u == t).map
+        (prob (upolOf c * prepMatrix A) s)).sum) ∧
+    (∀ p ∈ polDist (simMatrix (upolOf c) (prepMatrix A)) s, p.1 ∈ allStates c.size s.sum) := by
+  have hW := simMatrix_isUnitary c h hu A hA
+  have h1 := C02.dist_sums_to_one_GQ _ hW s hs
+  refine ⟨hW, rfl, ?_, ?_, fun t => get_polDist _ s t, ?_⟩
+  · rw [merge_marginal, mass_spatialDist]; exact h1
+  · rw [sum_get_polDist]; exact h1
+  · intro p hp
+    obtain ⟨u, hu', e⟩ := keys_polDist _ s p hp
+    rw [e]; exact mergeState_mem hu'
+
+/-- every `m`-mode state with the right photon number is the merge of a state of the `2m` sub-modes
+(so the enumeration of `polarised_simulation_spec` is exactly the range of the merge) -/
+theorem merge_surjective {m n : ℕ} (t : List ℕ) (ht : t ∈ allStates m n) :
+    ∃ u ∈ allStates (m * 2) n, mergeState u = t :=
+  ⟨spreadH t, spreadH_mem ht, mergeState_spreadH t⟩
+
+/-- "fed with each photon in the superposition given by its Jones vector": the amplitudes of
+`upol · prep` are those of `upol` applied to the state `prep|s⟩` (amplitudes `pamp prep s u`),
+summed over the intermediate states of the `2m` sub-modes (Fock-space composition, C02) -/
+theorem polarised_amplitude_factorises (c : PComp GQ)
+    (A : Fin c.size → Matrix (Fin 2) (Fin 2) GQ) (s t : List ℕ) (hs : s.length = c.size * 2)
+    (ht : t.length = c.size * 2) (hst : s.sum = t.sum) :
+    pamp (simMatrix (upolOf c) (prepMatrix A)) s t =
+      ((allStates (c.size * 2) s.sum).map fun u =>
+        pamp (upolOf c) u t * pamp (prepMatrix A) s u * GQ.ofRat (1 / (prodFact u : ℚ))).sum :=
+  C02.fock_comp_GQ (upolOf c) (prepMatrix A) s t hs ht hst
+
+/-- the blocks the repaired conversion builds from a successful scan of normalised photons are
+unitary, `ρ vs` being an exact self-adjoint inverse norm of the Gram–Schmidt vector wherever two
+polarisations share a mode -/
+theorem blocksOf_isUnitary [CommRing R] [StarRing R] [DecidableEq R]
+    (orth : R × R → R × R → Bool) (modes : List (List (R × R))) (scans : List (Scan R))
+    (hscan : scanAll orth modes = .ok scans)
+    (hnorm : ∀ phs ∈ modes, ∀ v ∈ phs, inner v v = 1)
+    (ρ : List (R × R) → R) (hρ : ∀ vs, star (ρ vs) = ρ vs)
+    (hn : ∀ sc ∈ scans, ∀ v1 v2 rest, sc.vectors = v1 :: v2 :: rest →
+      ρ sc.vectors * ρ sc.vectors * gsNorm2 v1 v2 = 1) (m : ℕ) (k : Fin m) :
+    IsUnitary (blocksOf true ρ scans m k) := by
+  have hspec := scanAll_spec orth modes scans hscan
+  have hQ : ∀ j, (∀ w ∈ (scans.getD j ⟨[], 0, 0⟩).vectors, inner w w = 1) ∧
+      (∀ v1 v2 rest, (scans.getD j ⟨[], 0, 0⟩).vectors = v1 :: v2 :: rest →
+        ρ (scans.getD j ⟨[], 0, 0⟩).vectors * ρ (scans.getD j ⟨[], 0, 0⟩).vectors *
+          gsNorm2 v1 v2 = 1) := by
+    intro j
+    rcases getD_mem_or_default (⟨[], 0, 0⟩ : Scan R) scans j with hmem | hdef
+    · refine ⟨?_, hn _ hmem⟩
+      obtain ⟨phs, hphs, _, hv⟩ := forall₂_mem_right hspec _ hmem
+      intro w hw
+      exact hnorm phs hphs w (hv w hw)
+    · rw [hdef]
+      exact ⟨by simp, by simp⟩
+  exact modeBlock_isUnitary _ _ (hQ k.val).1 (hρ _) (hQ k.val).2
+
+/-- **Top-level theorem, from the polarised input.**  `modes` lists the Jones vectors of the photons
+of every spatial mode.  If the conversion accepts the input (`scanAll … = .ok scans`: at most two
+polarisations per mode, the second one orthogonal to the first by the code's test `orth`) and the
+photons' Jones vectors are normalised, then the prepared spatial input puts every photon in exactly
+one sub-mode of its mode, `upol · prep` is unitary and the simulated distribution is the merged
+spatial distribution with total mass 1 over the `m`-mode states with as many photons as the input. -/
+theorem polarised_simulation_of_input (c : PComp GQ) (h : c.WF) (hu : c.AllUnitary)
+    (orth : GQ × GQ → GQ × GQ → Bool) (modes : List (List (GQ × GQ))) (scans : List (Scan GQ))
+    (hm : modes.length = c.size) (hscan : scanAll orth modes = .ok scans)
+    (hnorm : ∀ phs ∈ modes, ∀ v ∈ phs, inner v v = 1)
+    (ρ : List (GQ × GQ) → GQ) (hρ : ∀ vs, star (ρ vs) = ρ vs)
+    (hn : ∀ sc ∈ scans, ∀ v1 v2 rest, sc.vectors = v1 :: v2 :: rest →
+      ρ sc.vectors * ρ sc.vectors * gsNorm2 v1 v2 = 1) :
+    (spatialInput scans).length = c.size * 2 ∧
+    (spatialInput scans).sum = (modes.map List.length).sum ∧
+    IsUnitary (simMatrix (upolOf c) (prepMatrix (blocksOf true ρ scans c.size))) ∧
+    polDist (simMatrix (upolOf c) (prepMatrix (blocksOf true ρ scans c.size))) (spatialInput scans) =
+      Dist.mapKeys mergeState
+        (spatialDist (upolOf c * prepMatrix (blocksOf true ρ scans c.size)) (spatialInput scans)) ∧
+    Dist.mass (polDist (simMatrix (upolOf c) (prepMatrix (blocksOf true ρ scans c.size)))
+      (spatialInput scans)) = 1 ∧
+    ((allStates c.size (modes.map List.length).sum).map
+      (Dist.get (polDist (simMatrix (upolOf c) (prepMatrix (blocksOf true ρ scans c.size)))
+        (spatialInput scans)))).sum = 1 := by
+  have hspec := scanAll_spec orth modes scans hscan
+  have hlen : (spatialInput scans).length = c.size * 2 := by
+    rw [spatialInput_length, ← hspec.length_eq, hm]
+  have hsum : (spatialInput scans).sum = (modes.map List.length).sum := by
+    rw [spatialInput_sum]
+    exact forall₂_sum_eq List.length (fun sc : Scan GQ => sc.n0 + sc.n1) _
+      (fun _ _ hp => hp.1) _ _ hspec
+  obtain ⟨h1, h2, h3, h4, _, _⟩ := polarised_simulation_spec c h hu
+    (blocksOf true ρ scans c.size)
+    (blocksOf_isUnitary orth modes scans hscan hnorm ρ hρ hn c.size) (spatialInput scans) hlen
+  rw [hsum] at h4
+  exact ⟨hlen, hsum, h1, h2, h3, h4⟩
+
+/-- **The same over any `*`-field of characteristic zero — in particular `ℂ`, where the exact
+cosines, sines and square roots exist** (so every hypothesis is satisfiable by every physical
+set-up: `wp_unitary_complex`, `pr_unitary_complex`, `labelJones_norm`).  The merged probabilities
+`∑_{u merges to t} |perm((upol·prep)[u|s])|² / (∏s! ∏u!)` over the `m`-mode states `t` sum to one. -/
+theorem polarised_simulation_mass_field [Field R] [CharZero R] [StarRing R] (c : PComp R)
+    (h : c.WF) (hu : c.AllUnitary) (A : Fin c.size → Matrix (Fin 2) (Fin 2) R)
+    (hA : ∀ k, IsUnitary (A k)) (s : List ℕ) (hs : s.length = c.size * 2) :
+    IsUnitary (simMatrix (upolOf c) (prepMatrix A)) ∧
+    ((allStates c.size s.sum).map fun t =>
+      (((allStates (c.size * 2) s.sum).filter fun u => decide (mergeState u = t)).map fun u =>
+        pamp (simMatrix (upolOf c) (prepMatrix A)) s u *
+          star (pamp (simMatrix (upolOf c) (prepMatrix A)) s u) /
+            ((prodFact s : R) * (prodFact u : R))).sum).sum = 1 := by
+  have hW := simMatrix_isUnitary c h hu A hA
+  refine ⟨hW, ?_⟩
+  rw [← sum_fibres mergeState _ (allStates c.size s.sum) (allStates_nodup _ _)
+    (allStates (c.size * 2) s.sum) (fun a ha => mergeState_mem ha)]
+  exact C02.dist_sums_to_one _ hW s hs
+
+/-- for a circuit object `Circuit(m)` the re-typing in `upolOf` is the identity: `upolOf` *is* the
+matrix `compute_unitary(use_polarization=True)` of section 2 -/
+theorem upolOf_circuit [CommRing R] (m : ℕ) (items : PItems R) :
+    upolOf (.circ m items) = C01.prodItems (m * 2) (dblItems items) := upolOf_circ m items
+
+end TopLevel
+
+/-! ### 11. histories that also edit the circuit (`add`, re-tuned parameters)
+
+`CmdX` adds to `set_circuit` / `probs` the request `edit e`: the circuit object the session holds is
+mutated by `apply e` and the object is made to see it (`set_circuit`; a `Processor` does so before
+every computation).  The machine `sessionStepX` delegates every request to the unchanged
+`sessionStep`.  The theorems are for *every* edit function `apply` (so for `Circuit.add`, for
+`Parameter.set_value`, and for any other mutation); `applyEdit` is the concrete one on trees. -/
+
+section SessionX
+variable {C I M S O E : Type}
+
+/-- the transcript of the object over an extended history is the transcript of the stateless
+specification -/
+theorem sessionX_refines_stateless (env : Env C I M S O) (apply : E → C → Except String C)
+    (x : Option M) (h : List (CmdX C I E)) :
+    (SM.run (sessionStepX env apply) ⟨none, ⟨none, x⟩⟩ h).2 =
+      (SM.run (specStepX env apply) (none, none) h).2 :=
+  (SM.refine_run (sessionStepX env apply) (specStepX env apply) (TracksX env)
+    (fun s a op hr => sessionStepX_tracks env apply s a op hr) ⟨none, ⟨none, x⟩⟩ (none, none)
+    (⟨rfl, rfl⟩ : TracksX env ⟨none, ⟨none, x⟩⟩ (none, none)) h).2
+
+/-- after any history of `set_circuit`, edits (`add`, re-tuning, …) and queries, a query `i` is
+answered by the stateless `answer` for the circuit in force — the last circuit, *as edited*, that
+`set_circuit` accepted — and `i` alone -/
+theorem sessionX_query_answer (env : Env C I M S O) (apply : E → C → Except String C)
+    (x : Option M) (h : List (CmdX C I E)) (i : I) :
+    (sessionStepX env apply (SM.exec (sessionStepX env apply) ⟨none, ⟨none, x⟩⟩ h) (.probs i)).2 =
+      answer env (inForceX env apply h) i := by
+  have hr := (SM.refine_run (sessionStepX env apply) (specStepX env apply) (TracksX env)
+    (fun s a op hr => sessionStepX_tracks env apply s a op hr) ⟨none, ⟨none, x⟩⟩ (none, none)
+    (⟨rfl, rfl⟩ : TracksX env ⟨none, ⟨none, x⟩⟩ (none, none)) h).1
+  exact (sessionStepX_tracks env apply _ _ (.probs i) hr).2
+
+/-- history independence with edits: two histories (any mixture of `set_circuit`, `add`, re-tuned
+parameters, queries, rejected requests) that leave the same circuit in force give the same reply to
+the same input -/
+theorem sessionX_history_independent (env : Env C I M S O) (apply : E → C → Except String C)
+    (x y : Option M) (h₁ h₂ : List (CmdX C I E)) (i : I)
+    (hc : inForceX env apply h₁ = inForceX env apply h₂) :
+    (sessionStepX env apply (SM.exec (sessionStepX env apply) ⟨none, ⟨none, x⟩⟩ h₁) (.probs i)).2 =
+      (sessionStepX env apply (SM.exec (sessionStepX env apply) ⟨none, ⟨none, y⟩⟩ h₂) (.probs i)).2 := by
+  rw [sessionX_query_answer, sessionX_query_answer, hc]
+
+/-- the extended machine is the machine of `Model/C13.lean` run on the lowered history (an accepted
+edit = `set_circuit` of the edited circuit — what the harness replays through the driver) -/
+theorem sessionX_lowers (env : Env C I M S O) (apply : E → C → Except String C)
+    (x : Option M) (h : List (CmdX C I E)) (i : I) :
+    (sessionStepX env apply (SM.exec (sessionStepX env apply) ⟨none, ⟨none, x⟩⟩ h) (.probs i)).2 =
+      (sessionStep env (SM.exec (sessionStep env) ⟨none, x⟩ (lower apply none h)) (.probs i)).2 := by
+  have := exec_lower env apply h ⟨none, ⟨none, x⟩⟩
+  simp only [sessionStepX, this]
+
+/-- what is in force after one more request: an accepted edit puts the *edited* circuit in force,
+a refused edit (the assertion of `add`, a wrong path) and a query change nothing -/
+theorem inForceX_append_edit_ok (env : Env C I M S O) (apply : E → C → Except String C)
+    (h : List (CmdX C I E)) (e : E) (c c' : C) (u : M) (hh : heldX env apply h = some c)
+    (ha : apply e c = .ok c') (hc : env.compile c' = .ok u) :
+    inForceX env apply (h ++ [.edit e]) = some c' ∧ heldX env apply (h ++ [.edit e]) = some c' := by
+  unfold heldX at hh
+  simp [inForceX, heldX, SM.exec_append, SM.exec_cons, SM.exec_nil, specStepX, hh, ha, specStep, hc]
+
+theorem inForceX_append_edit_refused (env : Env C I M S O) (apply : E → C → Except String C)
+    (h : List (CmdX C I E)) (e : E) (c : C) (err : String) (hh : heldX env apply h = some c)
+    (ha : apply e c = .error err) :
+    inForceX env apply (h ++ [.edit e]) = inForceX env apply h := by
+  unfold heldX at hh
+  simp [inForceX, SM.exec_append, SM.exec_cons, SM.exec_nil, specStepX, hh, ha]
+
+theorem inForceX_append_probs (env : Env C I M S O) (apply : E → C → Except String C)
+    (h : List (CmdX C I E)) (i : I) :
+    inForceX env apply (h ++ [.probs i]) = inForceX env apply h := by
+  simp [inForceX, SM.exec_append, SM.exec_cons, SM.exec_nil, specStepX]
+
+end SessionX
+
+/-- `add`: the doubled matrix of the extended circuit is the doubled matrix of what was added,
+embedded at twice the offset, times the doubled matrix of the circuit before (the new component
+acts last; by `upolOf_circuit` the two `prodItems` are `upolOf` of the circuit after and before);
+sizes, admissible ranges and unitarity of the leaves are kept -/
+theorem addP_spec [CommRing R] [StarRing R] (m off : ℕ) (items : PItems R) (sub c' : PComp R)
+    (ha : addP off sub (.circ m items) = .ok c') :
+    c' = .circ m (items.append (.cons off sub .nil)) ∧
+    C01.prodItems (m * 2) (dblItems (items.append (.cons off sub .nil))) =
+      embed (m * 2) (off * 2) (unitaryOfPol sub) * C01.prodItems (m * 2) (dblItems items) ∧
+    (items.WF m → sub.WF → c'.WF) ∧ (items.AllUnitary → sub.AllUnitary → c'.AllUnitary) := by
+  simp only [addP] at ha
+  split_ifs at ha with hfit
+  cases ha
+  refine ⟨rfl, ?_, fun hi hs => ?_, fun hi hs => ?_⟩
+  · rw [dblItems_append, C01.prodItems_append]
+    simp [dblItems, unitaryOfPol]
+  · exact PItems.WF_append _ _ hi ⟨hfit.1, hs, trivial⟩
+  · exact PItems.AllUnitary_append _ _ hi ⟨hs, trivial⟩
+
+/-- re-tuning a leaf (`set_value`): the tree keeps its size and admissible ranges, and stays a tree
+of unitary leaves when the re-tuned leaf is unitary (so sections 2 and 10 apply to it again) -/
+theorem retune_keeps [CommRing R] [StarRing R] (new : PComp R) (p : List ℕ) (c c' : PComp R)
+    (hr : retune new p c = some c') :
+    c'.size = c.size ∧ (c.WF → c'.WF) ∧ (new.AllUnitary → c.AllUnitary → c'.AllUnitary) :=
+  retune_spec new p c c' hr
+
+/-- every circuit reachable by the harness's edits from a well-formed tree of unitary leaves is
+again one, provided what is added / the re-tuned leaf is -/
+theorem applyEdit_keeps [CommRing R] [StarRing R] (e : Edit R) (c c' : PComp R)
+    (ha : applyEdit e c = .ok c') (hw : c.WF) (hu : c.AllUnitary)
+    (he : match e with
+      | .add _ sub => sub.WF ∧ sub.AllUnitary
+      | .retune _ new => new.AllUnitary) :
+    c'.size = c.size ∧ c'.WF ∧ c'.AllUnitary := by
+  cases e with
+  | add off sub =>
+    cases c with
+    | plain k U => simp [applyEdit, addP] at ha
+    | pol k U => simp [applyEdit, addP] at ha
+    | circ m items =>
+      obtain ⟨e1, _, h3, h4⟩ := addP_spec m off items sub c' ha
+      exact ⟨by rw [e1]; rfl, h3 hw he.1, h4 hu he.2⟩
+  | retune path new =>
+    simp only [applyEdit] at ha
+    cases hr : retune new path c with
+    | none => simp [hr] at ha
+    | some c'' =>
+      simp only [hr, Except.ok.injEq] at ha
+      subst ha
+      obtain ⟨h1, h2, h3⟩ := retune_spec new path c c'' hr
+      exact ⟨h1, h2 hw, h3 he hu⟩
+
+/-! ### non-vacuity of sections 10 and 11 -/
+
+/-- the input `|{P:ell}{P:H}, 0, {P:H}>` on the 3-mode tree `exTree`: two polarisations in mode 0
+(`vEll` and `H`, not orthogonal — accepted by a lenient `orth`, repaired by Gram–Schmidt with the
+exact `ρ = 5/4`), vacuum in mode 1, one photon in mode 2 -/
+def exModes : List (List (GQ × GQ)) := [[vEll, (1, 0)], [], [(1, 0)]]
+def exRho : List (GQ × GQ) → GQ
+  | _ :: _ :: _ => GQ.ofRat (5 / 4)
+  | _ => 1
+
+example : exTree.size = 3 ∧ exModes.length = exTree.size ∧
+    scanAll (fun _ _ => true) exModes =
+      .ok [⟨[vEll, (1, 0)], 1, 1⟩, ⟨[], 0, 0⟩, ⟨[(1, 0)], 1, 0⟩] ∧
+    (∀ phs ∈ exModes, ∀ v ∈ phs, inner v v = 1) ∧ (∀ vs, star (exRho vs) = exRho vs) ∧
+    exRho [vEll, (1, 0)] * exRho [vEll, (1, 0)] * gsNorm2 vEll (1, 0) = 1 := by
+  refine ⟨rfl, rfl, by decide +kernel, by decide +kernel, ?_, by decide +kernel⟩
+  intro vs
+  unfold exRho
+  split <;> decide +kernel
+
+/-- over `ℂ`: a wave plate at arbitrary real angles is a well-formed tree of unitary leaves
+(hypotheses of `polarised_simulation_mass_field` at `R = ℂ`) -/
+example (δ ξ : ℝ) :
+    (PComp.pol 1 (wp Complex.I (Real.cos δ : ℂ) (Real.sin δ : ℂ) (Real.cos (2 * ξ) : ℂ)
+      (Real.sin (2 * ξ) : ℂ)) : PComp ℂ).WF ∧
+    (PComp.pol 1 (wp Complex.I (Real.cos δ : ℂ) (Real.sin δ : ℂ) (Real.cos (2 * ξ) : ℂ)
+      (Real.sin (2 * ξ) : ℂ)) : PComp ℂ).AllUnitary :=
+  ⟨trivial, wp_unitary_complex δ ξ⟩
+
+/-- an extended history on the toy instance (circuits are numbers, an edit adds to the number):
+`set_circuit 1; probs; add 2; probs` leaves `3` in force, and so does `set_circuit 3` -/
+def toyEnvX : Env ℕ Bool ℕ Unit ℕ where
+  compile c := .ok c
+  prepare b := .ok ((), if b then 2 else 1)
+  mkUnitary u p := .ok (u * p)
+  simulate w _ := w
+
+example : inForceX toyEnvX (fun (e : ℕ) c => .ok (c + e))
+      [.setCircuit 1, .probs true, .edit 2, .probs false] = some 3 ∧
+    inForceX toyEnvX (fun (e : ℕ) c => .ok (c + e)) [.setCircuit 3] = some 3 ∧
+    (sessionStepX toyEnvX (fun (e : ℕ) c => .ok (c + e))
+      (SM.exec (sessionStepX toyEnvX (fun (e : ℕ) c => .ok (c + e))) ⟨none, ⟨none, none⟩⟩
+        [.setCircuit 1, .probs true, .edit 2, .probs false]) (.probs true)).2 = .ok (some 6) :=
+  ⟨rfl, rfl, rfl⟩
+
+/-- a refused edit (hypotheses of `inForceX_append_edit_refused`) and an accepted one
+(`inForceX_append_edit_ok`) on the toy instance: the edit `0` raises, any other is added -/
+example : heldX toyEnvX (fun (e : ℕ) c => if e = 0 then .error "AssertionError" else .ok (c + e))
+      [.setCircuit 1] = some 1 ∧
+    inForceX toyEnvX (fun (e : ℕ) c => if e = 0 then .error "AssertionError" else .ok (c + e))
+      [.setCircuit 1, .edit 0] = some 1 ∧
+    inForceX toyEnvX (fun (e : ℕ) c => if e = 0 then .error "AssertionError" else .ok (c + e))
+      [.setCircuit 1, .edit 0, .edit 4] = some 5 :=
+  ⟨rfl, rfl, rfl⟩
+
+/-- `add` and re-tuning on a concrete tree: a rotator added on mode 2 of `exTree`, then the wave
+plate at path `[0, 1]` (second item of the nested sub-circuit) given other angles; an `add` outside
+the circuit is refused -/
+example : ∃ c1 c2, applyEdit (.add 2 (.pol 1 (pr c35 s45))) exTree = .ok c1 ∧
+    applyEdit (.retune [0, 1] (.pol 1 (wp GQ.I c513 s1213 c35 s45))) c1 = .ok c2 ∧
+    c2.size = 3 ∧
+    applyEdit (.add 3 (.pol 1 (pr c35 s45))) exTree = .error "AssertionError" := by
+  refine ⟨_, _, rfl, rfl, rfl, rfl⟩
+
+/-!
+### What is proved here and what is not
+
+Proved (sections 1–11): every ingredient of the statement, the top-level composition
+(`polarised_simulation_spec`, `polarised_simulation_of_input`, `polarised_simulation_mass_field`,
+`polarised_amplitude_factorises`) and the session theorems for histories of `set_circuit`, edits
+(`add`, re-tuning — any mutation) and queries.
+
+NOT proved (validated by the correspondence only, or outside the model):
+* `upolOf`/`blocksOf`/`scanAll` compose the model's definitions as `Driver/C13.lean: envGQ` does
+  (there through `MatV` materialisation and `matOfRows` re-typing); the driver's glue itself is not
+  the subject of a theorem.
+* The exact-`ρ` hypothesis: over `ℚ[i]` the driver uses one Newton step for `1/√x`, so the matrix
+  it simulates is unitary only up to `10⁻²⁴`; the mass-one theorem is exact for exact `ρ` (always
+  available over `ℂ`, `polarised_simulation_mass_field`).
+* `evolve()` on polarised states / `_postprocess_sv_impl` (amplitudes with `P:H`/`P:V`
+  annotations) is NOT in the model: there is no definition to state a theorem about; the harness
+  compares only the merged `|amplitude|²` of `evolve` within sessions.
+* That the real object has no hidden state beyond `_upol` and the inner circuit, that
+  `Parameter.set_value` + `set_circuit` recompiles, and that `Processor.add` is seen by the next
+  `probs()` — the session theorems are about the model's machine; model = code by testing.
+* `cos`, `sin`, `√` themselves, the inner spatial engines (C02), the `k × k` leaf matrices (C14).
+-/
 
 end PM.C13
